@@ -133,8 +133,10 @@ func (st *fragState) apply(op []string, o *hx.Out) {
 			ctx, cf := context.WithTimeout(st.ctx, 2*time.Second)
 			defer cf()
 			fragswarm.VerifHandleTell(ctx, st.frecv, p2p.Message[memswarm.Addr]{
-				Src: st.addrs[atoi(op[1])], Dst: st.addrs[nFragSenders], Payload: hx.Exact(hx.UnHex(op[2]))})
-			return st.drain()
+				Src: st.addrs[atoi(op[1])], Dst: st.addrs[nFragSenders], Payload: hx.Lend(hx.UnHex(op[2]))})
+			res := st.drain()
+			hx.Reclaim() // the inner swarm's buffer is reused once its callback has returned
+			return res
 		case "frag-naggs":
 			return strconv.Itoa(fragswarm.VerifNumAggregators(st.frecv))
 		case "mb-new":
@@ -184,9 +186,11 @@ func (st *fragState) apply(op []string, o *hx.Out) {
 		case "mb-recv":
 			ctx, cf := context.WithTimeout(st.ctx, 300*time.Millisecond)
 			defer cf()
-			mbapp.VerifHandleMessage(ctx, st.mrecv, st.addrs[atoi(op[1])], st.addrs[nFragSenders], hx.Exact(hx.UnHex(op[2])))
+			mbapp.VerifHandleMessage(ctx, st.mrecv, st.addrs[atoi(op[1])], st.addrs[nFragSenders], hx.Lend(hx.UnHex(op[2])))
 			st.takeCaptured() // replies to ask requests
-			return st.drain()
+			res := st.drain()
+			hx.Reclaim()
+			return res
 		case "mb-ncols":
 			return strconv.Itoa(mbapp.VerifNumCollectors(st.mrecv))
 		case "mb-errcode":
